@@ -120,6 +120,8 @@ func c18Run(tier string, seed int64, idx int) *core.Result {
 		writesPerConn = 20000
 	}
 	var w Waiter
+	deadCtx, deadCancel := context.WithCancel(context.Background())
+	deadCancel()
 	var pauseReaders atomic.Bool
 	var keepWriting atomic.Bool
 	keepWriting.Store(c.Family == "cancel-writer")
@@ -138,6 +140,22 @@ func c18Run(tier string, seed int64, idx int) *core.Result {
 			for {
 				if pauseReaders.Load() {
 					readGate.Wait("reader")
+				}
+				if n%2 == 0 {
+					// an impatient consumer: polls with a context that is already over; that must not
+					// consume anything
+					if m, err := rw.Read(deadCtx); err == nil {
+						cn.mu.Lock()
+						if cn.key == "" {
+							cn.key = m.GetHeader().GetSource()
+							mu.Lock()
+							conns[cn.key] = append(conns[cn.key], cn)
+							mu.Unlock()
+						}
+						cn.got = append(cn.got, m)
+						cn.mu.Unlock()
+						continue
+					}
 				}
 				m, err := rw.Read(ctx)
 				if err != nil {
@@ -204,6 +222,7 @@ func c18Run(tier string, seed int64, idx int) *core.Result {
 		keys[i] = fmt.Sprintf("key%d", i)
 	}
 	fed := map[string][]uint64{}
+	fedAfterCancel := map[uint64]bool{} // envelopes handed to the shared transport after Cancel had returned
 	feed := func(n int, key string) bool {
 		e := &wire.Rpc{Id: uint64(1000 + n), Header: &goatorepo.RequestHeader{Method: "/m", Source: key, Destination: "srv"}, Body: &goatorepo.Body{Data: []byte{byte(n)}}}
 		core.Cursor(fmt.Sprintf("%s: feeding envelope %d key %s", c.Family, n, key))
@@ -227,6 +246,9 @@ func c18Run(tier string, seed int64, idx int) *core.Result {
 		}
 		if err == nil {
 			fed[key] = append(fed[key], e.Id)
+			if cancelTick != 0 {
+				fedAfterCancel[e.Id] = true
+			}
 		}
 		return err == nil
 	}
@@ -234,8 +256,8 @@ func c18Run(tier string, seed int64, idx int) *core.Result {
 	stopped := false
 	for n := 0; n < c.N; n++ {
 		key := keys[r.Intn(len(keys))]
-		if n == 0 {
-			key = victim
+		if n == 0 || n == c.At+1 || n == c.At+2 {
+			key = victim // also right after the Cancel, with no other key in between
 		}
 		if n == c.At {
 			switch c.Family {
@@ -337,6 +359,18 @@ func c18Run(tier string, seed int64, idx int) *core.Result {
 				break
 			}
 			j++
+		}
+		if !exact && !stopped {
+			seenIDs := map[uint64]bool{}
+			for _, g := range got {
+				seenIDs[g] = true
+			}
+			for _, wid := range want {
+				if fedAfterCancel[wid] && !seenIDs[wid] {
+					res.Violate("envelope-after-cancel-lost", "key %s: envelope %d was fed after Cancel(%s) had returned (a new logical connection must take it) but was never read; read %v", key, wid, victim, got)
+					break
+				}
+			}
 		}
 		if exact && !stopped && len(got) != len(want) {
 			res.Violate("logical-connection-loses-envelope", "key %s: read %d envelopes, %d were fed", key, len(got), len(want))
